@@ -10,11 +10,12 @@ import (
 // C04.R7 — a route is selected only if all of its matchers hold.
 //
 // "the first route ... whose path rule, header, method and variable matchers all hold": structural clauses
-//   (a) Path/Prefix/Regex rules return themselves only behind the true edges of the common matcher (matchRoute) AND of
-//       their own path predicate, applied to the request path variable in the right argument order
-//       (HasPrefix(requestPath, configuredPrefix), not the other way round);
-//   (b) the conjunction matchers (header list, method/variable list, matchRoute) answer true only after every item was
-//       checked and false as soon as one fails (all-of shape).
+//
+//	(a) Path/Prefix/Regex rules return themselves only behind the true edges of the common matcher (matchRoute) AND of
+//	    their own path predicate, applied to the request path variable in the right argument order
+//	    (HasPrefix(requestPath, configuredPrefix), not the other way round);
+//	(b) the conjunction matchers (header list, method/variable list, matchRoute) answer true only after every item was
+//	    checked and false as soon as one fails (all-of shape).
 func c04Matchers(c *Ctx, pkg string) {
 	type spec struct{ typ, pred, field string }
 	for _, s := range []spec{{"PathRouteRuleImpl", "EqualFold", "path"}, {"PrefixRouteRuleImpl", "HasPrefix", "prefix"}, {"RegexRouteRuleImpl", "MatchString", "regexPattern"}} {
